@@ -79,4 +79,61 @@ def quadPpm (sgn : GQ) (u : GQ) : Mat :=
 
 def zero4 : Mat := [[0, 0, 0, 0], [0, 0, 0, 0], [0, 0, 0, 0], [0, 0, 0, 0]]
 
+
+/-! ### cubic gate, general weights -/
+
+/-- matrix of one fermionic term on three modes, from the Spec -/
+def termMat3 (t : List (Nat × Nat)) : Mat :=
+  t.foldr (fun f acc => Mat.mul (Mat.ofInt (ladderDense 3 f.1 f.2)) acc) (Mat.identity 8)
+
+def zero8 : Mat := (List.range 8).map fun _ => (List.range 8).map fun _ => 0
+
+def opMat3 (A : List (List (Nat × Nat) × GQ)) : Mat :=
+  A.foldl (fun acc tc => Mat.add acc (Mat.smul tc.2 (termMat3 tc.1))) zero8
+
+def e65 : Mat :=
+  [[0, 0, 0, 0, 0, 0, 0, 0],
+   [0, 0, 0, 0, 0, 0, 0, 0],
+   [0, 0, 0, 0, 0, 0, 0, 0],
+   [0, 0, 0, 0, 0, 0, 0, 0],
+   [0, 0, 0, 0, 0, 0, 0, 0],
+   [0, 0, 0, 0, 0, 0, 0, 0],
+   [0, 0, 0, 0, 0, 1, 0, 0],
+   [0, 0, 0, 0, 0, 0, 0, 0]]
+def e63 : Mat :=
+  [[0, 0, 0, 0, 0, 0, 0, 0],
+   [0, 0, 0, 0, 0, 0, 0, 0],
+   [0, 0, 0, 0, 0, 0, 0, 0],
+   [0, 0, 0, 0, 0, 0, 0, 0],
+   [0, 0, 0, 0, 0, 0, 0, 0],
+   [0, 0, 0, 0, 0, 0, 0, 0],
+   [0, 0, 0, 1, 0, 0, 0, 0],
+   [0, 0, 0, 0, 0, 0, 0, 0]]
+def e53 : Mat :=
+  [[0, 0, 0, 0, 0, 0, 0, 0],
+   [0, 0, 0, 0, 0, 0, 0, 0],
+   [0, 0, 0, 0, 0, 0, 0, 0],
+   [0, 0, 0, 0, 0, 0, 0, 0],
+   [0, 0, 0, 0, 0, 0, 0, 0],
+   [0, 0, 0, 1, 0, 0, 0, 0],
+   [0, 0, 0, 0, 0, 0, 0, 0],
+   [0, 0, 0, 0, 0, 0, 0, 0]]
+
+/-- tie: JW matrices (via the Spec) of the extracted `fermion_generator_components` of the cubic gate:
+`|110⟩⟨101|`, `|110⟩⟨011|`, `|101⟩⟨011|` -/
+theorem cubicComp0 : opMat3 (cubicComponents.getD 0 []) = e65 := by decide +kernel
+theorem cubicComp1 : opMat3 (cubicComponents.getD 1 []) = e63 := by decide +kernel
+theorem cubicComp2 : opMat3 (cubicComponents.getD 2 []) = e53 := by decide +kernel
+
+theorem cubicGenerator_lit (w0 w1 w2 : GQ) : cubicGenerator w0 w1 w2 =
+  [[0, 0, 0, 0, 0, 0, 0, 0],
+   [0, 0, 0, 0, 0, 0, 0, 0],
+   [0, 0, 0, 0, 0, 0, 0, 0],
+   [0, 0, 0, 0, 0, GQ.conj w2, GQ.conj w1, 0],
+   [0, 0, 0, 0, 0, 0, 0, 0],
+   [0, 0, 0, w2, 0, 0, GQ.conj w0, 0],
+   [0, 0, 0, w1, 0, w0, 0, 0],
+   [0, 0, 0, 0, 0, 0, 0, 0]] := by
+  rfl
+
 end OFV.C14
